@@ -103,6 +103,18 @@ CHECKS = {
              "pointer, becomes pointer+1 there, is frozen afterwards and is returned +1.",
         note=TB + " That the label bytes equal a reference decoder's follows from R1-R6 by inspection, not mechanically.",
         ref="DESIGN.md section 4 C06"),
+    "C04": dict(
+        technique="symbolic writer-position tracking (exact byte counts) vs len() linear forms + structural emission-order, error-discipline and panic-reachability rules",
+        text="For each of the 47 WireFormat impls the exact symbolic number of bytes write_to emits (writer-position model, loops as "
+             "per-element sums, enum matches per variant) is compared with the value of len(), which is what the uncompressed RDLENGTH "
+             "is computed from; the header counts are shown to be the lengths of the vectors written in order, plus opt.is_some(); "
+             "both packet writers emit header, questions, answers, name_servers, OPT, additional in that order; the Vec-returning entry "
+             "points only wrap the writer ones; no Result in the writer graph is dropped; no panic site is reachable from the four "
+             "entry points; the RDLENGTH back-patch seeks to the captured positions.",
+        note=TB + " A-SEEK: a writer's stream position advances by the bytes written and seek(Start(p)) moves it to p. TXT's len() "
+             "(a cached field) is listed as not decided. Byte equality of the entry points for arbitrary Write impls beyond R3/R6 "
+             "is not decided. The u16 addition in write_header is an assumed precondition (within DNS size limits).",
+        ref="DESIGN.md section 4 C04"),
 }
 
 NA = {
